@@ -527,6 +527,12 @@ class EntrezGeneId(ZeroBasedIntegerColumn):
     def __nullable_dict__(cls) -> Dict[str, None]:
         return {"0": None}
 
+    @classmethod
+    def __build__(cls, value: Any) -> Optional[int]:
+        # zero is the null value however it is spelled ("00", "-0", ...)
+        built = super(EntrezGeneId, cls).__build__(value)
+        return None if built == 0 else built
+
 
 class Strand(EnumColumn):
     """A column that represents the 'Strand' MAF column, where strand is either
